@@ -55,7 +55,9 @@ pub fn check_words(words: &[&str], acc: &mut Acc) {
         )),
         (Some(want), PS::Ok(_, tree)) => {
             acc.count("accepted", 1);
-            acc.count(&format!("accepted_len_{}", words.len()), 1);
+            if words.len() <= 9 {
+                acc.count(&format!("accepted_len_{}", words.len()), 1);
+            }
             acc.outcome(tree);
             if has_foreign_node(tree) {
                 acc.violate(Violation::new(
@@ -184,6 +186,44 @@ fn self_check(alpha: &[&str], max_len: usize, accepted_by_len: &[u64]) -> Result
     Ok((checked, counts[1..=max_len].iter().sum::<u128>() as u64))
 }
 
+/// Long sentences: n primaries joined by one operator spelling (or by juxtaposition), and the
+/// same under k-fold negation / parentheses; the reference tree is the left fold.
+fn long_sentences() -> Acc {
+    let ns: Vec<usize> = (2..=20).chain([31, 32, 33, 63, 64, 65, 127, 128, 129, 255, 256, 257, 258, 259, 300, 400, 511, 512, 513, 600]).collect();
+    let joins: [Option<&str>; 6] = [None, Some("-a"), Some("-and"), Some("-o"), Some("-or"), Some(",")];
+    let prims = ["-true", "-print", "-name x"];
+    let mut cases: Vec<Vec<&str>> = vec![];
+    for &n in &ns {
+        for j in joins {
+            for p in prims {
+                if n * (p.len() + 1 + j.map_or(0, |j| j.len() + 1)) > 4096 {
+                    continue; // the property's stated size bound
+                }
+                let mut w = vec![];
+                for k in 0..n {
+                    if k > 0 {
+                        if let Some(j) = j {
+                            w.push(j);
+                        }
+                    }
+                    w.push(p);
+                }
+                cases.push(w);
+            }
+        }
+    }
+    for k in 1..=64usize {
+        let mut w = vec!["!"; k];
+        w.push("-true");
+        cases.push(w);
+        let mut w = vec!["("; k];
+        w.extend(["-true", "-o", "-print"]);
+        w.extend(vec![")"; k]);
+        cases.push(w);
+    }
+    speclib::report::par_items(&cases, |w, acc| check_words(w, acc))
+}
+
 pub fn run(ctx: &Ctx) -> i32 {
     let n11 = ctx.tier.pick(6, 8);
     let mut acc = sweep(&WORDS11, 1, n11);
@@ -204,7 +244,8 @@ pub fn run(ctx: &Ctx) -> i32 {
             }
         }
     }
-    let mut bound = format!("all word sequences of length 1..{n11} over {} words", WORDS11.len());
+    acc = acc.merge(long_sentences());
+    let mut bound = format!("all word sequences of length 1..{n11} over {} words; chains of 2..20 and of 31..600 primaries (around every power of two) under each operator spelling and juxtaposition, within 4 KiB; 1..64-fold negation and parentheses", WORDS11.len());
     if ctx.tier == Tier::Thorough {
         let a9 = sweep(&WORDS9, 9, 9);
         acc = acc.merge(a9);
